@@ -76,7 +76,11 @@ RULE = ("B in 1..9, 1-3 channels, H,W in 4..17 independently (some up to 40), al
         "with negative entries, one-hot rows mixed with rows of -1), binary float / int, and the "
         "rejected kinds (class indices, out of range, rank 3); image dtypes float32/float64/uint8/int64 and ranks "
         "(C,H,W) / (H,W) / (D,) / () / (C,T,H,W); 4% multi-view samples (x = list of 2-3 view tensors, 40% of them in the "
-        "single-item mode 'x'); draws from numpy default_rng(seed) or a scripted generator injecting "
+        "single-item mode 'x'); 15% of the float (C,H,W) batches carry 0-3 non-finite pixels (+inf, -inf, NaN) per image "
+        "anywhere in the image: these are handed to the oracle pixel for pixel (tokens for NaN / inf) and judged bit-exactly "
+        "(cutmix: outside the prescribed box x_i's pixel, inside it the partner's pixel, NaN stays that NaN and inf that inf; "
+        "mixup: NaN / inf exactly where lambda*a + (1-lambda)*b gives it), they are kept out of the Coq comparison; "
+        "draws from numpy default_rng(seed) or a scripted generator injecting "
         "edge draws (lambda 0/1, centres at the border, identity permutation); non-trivial = B >= 2 and outcome ok; "
         "distinct by (B,H,W,modes,probabilities,tokens,label kind,pipeline,dtype,rank,per-sample cut flags)")
 
@@ -249,7 +253,86 @@ def x_sample(case, k):
         p = p[0, 0, 0]
     elif r == "cthw":
         p = torch.stack([p, p], dim=1)
-    return p.to(getattr(torch, case.get("xdtype", "float32")))
+    p = p.to(getattr(torch, case.get("xdtype", "float32")))
+    for mk, mc, mr, mcol, kind in case.get("nonfinite") or []:
+        # invalid-measurement markers / padding: a few +-inf / NaN pixels per image (float images of rank (C,H,W) only)
+        if mk == k:
+            p[mc, mr, mcol] = NONFINITE[kind]
+    return p
+
+
+NONFINITE = {"inf": float("inf"), "-inf": float("-inf"), "nan": float("nan")}
+
+
+def pix_tokens(t):
+    """one image -> flat list (C,H,W order) of JSON-able entries: a float for a finite pixel, "nan" / "inf" / "-inf" """
+    out = []
+    for v in t.double().flatten().tolist():
+        out.append("nan" if v != v else ("inf" if v == float("inf") else ("-inf" if v == float("-inf") else v)))
+    return out
+
+
+def pix_values(tokens):
+    return [NONFINITE[v] if isinstance(v, str) else float(v) for v in tokens]
+
+
+def same_pixel(a, b):
+    """bit-identical as far as the property goes: the same number, or both NaN"""
+    return (a != a and b != b) or a == b
+
+
+def fmt_pixel(v):
+    return "NaN" if v != v else repr(v)
+
+
+def judge_pixels(case, obs, i, p, lam, cut, want):
+    """pixel-exact judgement of output image i of a batch whose images contain non-finite pixels (obs["pix"]):
+    cutmix: there is a prescribed box such that every pixel outside of it is x_i's pixel and every pixel inside of it is
+    x_p's pixel, bit for bit (a NaN of the source stays NaN, an inf stays that inf, nothing non-finite appears elsewhere);
+    mixup: every pixel is lam*a + (1-lam)*b of the two source pixels: NaN / +-inf exactly where that arithmetic gives
+    it, within 2e-3 elsewhere.  -> None | description"""
+    ch, h, w = eff_dims(case)
+    out = pix_values(obs["pix"][i])
+    xi = pix_values(pix_tokens(x_sample(case, i)))
+    xp = pix_values(pix_tokens(x_sample(case, p)))
+    if len(out) != ch * h * w:
+        return f"image has {len(out)} pixels, expected {ch * h * w}"
+    pos = [(c, r, col) for c in range(ch) for r in range(h) for col in range(w)]
+    if cut:
+        first_bad = None
+        for box in sorted(want):
+            top, left, bot, right = box
+            bad = None
+            for n, (c, r, col) in enumerate(pos):
+                inside = top <= r < bot and left <= col < right
+                src = xp[n] if inside else xi[n]
+                if not same_pixel(out[n], src):
+                    bad = (f"pixel (channel {c}, row {r}, col {col}) is {fmt_pixel(out[n])}; it lies "
+                           f"{'inside' if inside else 'outside'} the box {list(box)} and must be bit-identical to "
+                           f"{'the partner x_%d' % p if inside else 'x_%d' % i}'s pixel {fmt_pixel(src)} "
+                           f"(x_{i} has {fmt_pixel(xi[n])}, x_{p} has {fmt_pixel(xp[n])} there)")
+                    break
+            if bad is None:
+                area = (bot - top) * (right - left)
+                if p != i and abs(1.0 - area / (h * w) - lam) > 1e-5:
+                    bad = (f"image keeps {1.0 - area / (h * w):.4f} of sample {i} (box {list(box)} from sample {p}), "
+                           f"ctx lambda says {lam:.4f}")
+                else:
+                    return None
+            first_bad = first_bad or bad
+        return ("no box floor(0.5*sqrt(1-lambda)*(h,w)) around the drawn centre reproduces the image pixel for pixel "
+                f"(candidates {sorted(want)}): " + str(first_bad))
+    for n, (c, r, col) in enumerate(pos):
+        e = lam * xi[n] + (1.0 - lam) * xp[n]
+        o = out[n]
+        if e != e or e in (float("inf"), float("-inf")):
+            ok = same_pixel(o, e)
+        else:
+            ok = o == o and abs(o - e) <= 2e-3
+        if not ok:
+            return (f"pixel (channel {c}, row {r}, col {col}) is {fmt_pixel(o)}, {lam:.6f}*x_{i} + {1 - lam:.6f}*x_{p} "
+                    f"= {lam:.6f}*{fmt_pixel(xi[n])} + {1 - lam:.6f}*{fmt_pixel(xp[n])} = {fmt_pixel(e)}")
+    return None
 
 
 def canonical(case, t):
@@ -731,7 +814,12 @@ def run_impl(case):
             if not (isinstance(it, torch.Tensor) and tuple(it.shape) == (b,) + tuple(xs0.shape) and it.dtype == xs0.dtype):
                 obs["layout"] = "x has shape/dtype " + str(getattr(it, "shape", None)) + str(getattr(it, "dtype", None))
                 return obs
-            obs["img"] = [summarise_image(it[i], i, case) for i in range(b)]
+            if case.get("nonfinite"):
+                # non-finite pixels: the images are handed to the oracle pixel for pixel (tokens for NaN / inf)
+                obs["pix"] = [pix_tokens(canonical(case, it[i])) for i in range(b)]
+                obs["img"] = [["N"] for i in range(b)]
+            else:
+                obs["img"] = [summarise_image(it[i], i, case) for i in range(b)]
             others.append("X")
             others_in.append("X")
         elif t == "class":
@@ -923,7 +1011,20 @@ def oracle(case, obs):
         s = obs["img"][i]
         own, oth = (float(i), float(i * i)), (float(p), float(p * p))
         why = None
-        if s[0] == "O":
+        if s[0] == "N":
+            want = None
+            if cut:
+                if boxes is None:
+                    why = "cutmix flagged but the draws are not [beta(s), integers(h), integers(w)]"
+                else:
+                    lam_d, chh, cww = boxes[0] if n_l == 1 else boxes[i]
+                    want = set()
+                    for hh in halves_allowed(lam_d, h, tol):
+                        for wh in halves_allowed(lam_d, w, tol):
+                            want.add((max(chh - hh, 0), max(cww - wh, 0), min(chh + hh, h), min(cww + wh, w)))
+            if not why:
+                why = judge_pixels(case, obs, i, p, lam, cut, want)
+        elif s[0] == "O":
             why = "image is " + s[1]
         elif cut:
             # the box the formula prescribes for the recorded lambda and centre (independent of the implementation)
@@ -1018,6 +1119,8 @@ def draw(d):
 def coq_applicable(case, obs):
     if "harness_exception" in obs or obs.get("trace") is None:
         return False
+    if case.get("nonfinite"):
+        return False       # images with NaN / inf pixels are judged pixel for pixel by the Python oracle only
     if obs["result"] == "ok":
         return obs["layout"] in ("tensor", "tuple")
     return obs["result"] in OUTCOME
@@ -1249,6 +1352,17 @@ def gen_case(rng, big=False, tier="quick"):
         case["tokens"] = [t for t in case["tokens"] if t != "x"] or ["class"]
         if case.get("pipe") == "mae":
             case["pipe"] = "compose"
+    if (case.get("xdtype", "float32").startswith("float") and case.get("xrank", "chw") == "chw" and not case.get("views")
+            and "x" in case["tokens"] and case["H"] <= 17 and case["W"] <= 17 and rng.random() < 0.15):
+        # float images with a few non-finite pixels each (invalid-measurement markers, -inf padding): 0-3 per image, anywhere
+        full = layout(case)[0]
+        marks = []
+        for k in range(full):
+            for _ in range(rng.choice([0, 1, 2, 2, 3])):
+                marks.append([k, rng.randrange(case["C"]), rng.randrange(case["H"]), rng.randrange(case["W"]),
+                              rng.choice(["inf", "inf", "-inf", "nan"])])
+        if marks:
+            case["nonfinite"] = marks
     return case
 
 
@@ -1265,6 +1379,25 @@ def search_cases(rng, tier):
 
 
 def shrink(case):
+    marks = case.get("nonfinite")
+    if not marks:
+        yield from _shrink0(case)
+        return
+    for c in _shrink0(case):
+        if not c.get("xdtype", "float32").startswith("float") or c.get("xrank", "chw") != "chw":
+            continue
+        full = layout(c)[0]
+        ms = [m for m in marks if m[0] < full and m[1] < c["C"] and m[2] < c["H"] and m[3] < c["W"]]
+        c = dict(c)
+        c.pop("nonfinite", None)
+        if ms:
+            c["nonfinite"] = ms
+        yield c
+    for j in range(len(marks)):
+        yield dict(case, nonfinite=marks[:j] + marks[j + 1:])
+
+
+def _shrink0(case):
     b = case["B"]
     lab = case["labels"]
     kind, vals = lab[0], lab[1]
@@ -1333,6 +1466,11 @@ def features(case, obs):
     yield "result=" + obs.get("result", "harness_exception")[:30]
     for s in obs.get("img", []):
         yield "img=" + s[0]
+    if case.get("nonfinite"):
+        yield "non-finite pixels: " + ",".join(sorted({m[4] for m in case["nonfinite"]}))
+        if obs.get("cutmix") is not None and obs.get("result") == "ok":
+            yield "non-finite pixels under " + "+".join(sorted({"cutmix" if c else "mixup" for c in obs["cutmix"]})) \
+                  + " lamb_mode=" + modes_of(case, obs)["lamb_mode"]
     if obs.get("cutmix") and len(set(obs["cutmix"])) == 2:
         yield "mixed mixup+cutmix in one batch"
     for d in obs.get("trace") or []:
